@@ -244,7 +244,8 @@ def _pendroot_rule(chk, prog):
                 if ("popped", r) in st and ("released", r) not in st and "nothr" not in st:
                     bad.setdefault(r, x)
                 return frozenset(f for f in st if not (isinstance(f, tuple) and f[1] == r))
-            if x.k == "call" and x.callee == "janet_ev_post_event" and any(is_ref(strip_casts(a), "janet_thread_chan_cb") for a in x.args):
+            if x.k == "call" and ((x.callee == "janet_ev_post_event" and any(is_ref(strip_casts(a), "janet_thread_chan_cb") for a in x.args))
+                                  or x.callee == "janet_chan_post"):
                 return st | frozenset(("released", f[1]) for f in st if isinstance(f, tuple) and f[0] == "popped")
             if x.k == "call" and x.callee == "janet_gcunroot":
                 names = set(y.name for y in x.walk() if y.k == "ref")
